@@ -337,10 +337,21 @@ Definition check_service (fuel : nat) (f : frugal) (incs : list (bytes * ftree))
         rall (check_method_rules (sv_name s)) (sv_methods s))).
 
 (** * validateScopes *)
+Fixpoint first_dup_var (seen vars : list bytes) : option bytes :=
+  match vars with
+  | [] => None
+  | v :: t => if existsb (beqb v) seen then Some v else first_dup_var (v :: seen) t
+  end.
+(** validateScopeTypes: each prefix variable may be named once (it becomes a parameter of the
+    generated publisher and subscriber), then the operation types *)
 Definition check_scope (rf : CompilerTotal.frugal) (s : scope) : vr :=
+  rand (match first_dup_var [] (p_vars (sc_prefix s)) with
+        | Some v => RErr (cat [T "Duplicate prefix variable "; v; T " in scope "; sc_name s])
+        | None => ROk
+        end) (fun _ =>
   rall (fun o => if valid_ty rf (o_type o) then ROk
                  else RErr (cat [T "Invalid operation type "; type_name (o_type o); T " for ";
-                                 method_where (sc_name s) (o_name o)])) (sc_ops s).
+                                 method_where (sc_name s) (o_name o)])) (sc_ops s)).
 
 (** * Frugal.validate *)
 Definition cvalidate (fuel : nat) (f : frugal) (incs : list (bytes * ftree)) : vr :=
